@@ -103,7 +103,7 @@ func agree(x *h.X, p *ref.SLHParams, what string, model bool, expect bool, paths
 }
 
 // internalVerifier: the internal slhdsa API with an explicit context.
-func internalVerifier(t *c16b.P, pk, ctx []byte) verifyFn {
+func internalVerifier(t c16b.API, pk, ctx []byte) verifyFn {
 	return verifyFn{"internal PublicKey.Verify", func(msg, sig []byte) error {
 		k, err := t.DecodePublicKey(pk)
 		if err != nil {
@@ -115,7 +115,7 @@ func internalVerifier(t *c16b.P, pk, ctx []byte) verifyFn {
 
 // catalogue: the full negative catalogue around one valid (msg, ctx, sig) under pk, through the internal API.
 func catalogue(x *h.X, s pset, pk, msg, ctx, sig []byte, extra []verifyFn, full bool) bool {
-	p, t := s.r, s.t
+	p, t := s.r, s.a
 	iv := internalVerifier(t, pk, ctx)
 	paths := append([]verifyFn{iv}, extra...) // extra paths only exist for the empty context
 	if !agree(x, p, "the valid signature", p.Verify(msg, sig, ctx, pk), true, paths, msg, sig) {
@@ -214,7 +214,7 @@ func catalogue(x *h.X, s pset, pk, msg, ctx, sig []byte, extra []verifyFn, full 
 	// the other hash family with identical sizes
 	for _, o := range sets {
 		if o.r.N == p.N && o.r.Hp == p.Hp && o.r.SHA2 != p.SHA2 {
-			if !agree(x, o.r, "a "+p.Name+" signature", o.r.Verify(msg, sig, ctx, pk), false, []verifyFn{internalVerifier(o.t, pk, ctx)}, msg, sig) {
+			if !agree(x, o.r, "a "+p.Name+" signature", o.r.Verify(msg, sig, ctx, pk), false, []verifyFn{internalVerifier(o.a, pk, ctx)}, msg, sig) {
 				return false
 			}
 		}
@@ -226,10 +226,13 @@ func catalogue(x *h.X, s pset, pk, msg, ctx, sig []byte, extra []verifyFn, full 
 
 func katSection(x *h.X) {
 	s := pickSet(x)
-	p, t := s.r, s.t
+	p, t := s.r, s.a
 	v := kats[p.Name]
 	x.NonTrivial()
 	x.Outcome("kat-verify/" + p.Name)
+	if t.PublicKeyLength() != p.PKLen() || t.SecretKeyLength() != p.SKLen() { // also judged in the dims seam; here through exported names only
+		x.Fail("params", "%s: key lengths %d/%d want %d/%d", p.Name, t.PublicKeyLength(), t.SecretKeyLength(), p.PKLen(), p.SKLen())
+	}
 	var enc []byte
 	if !try(x, "DecodeSecretKey", func() {
 		sk, err := t.DecodeSecretKey(v.sk)
@@ -289,7 +292,7 @@ func schemeSection(x *h.X) {
 		}
 	}
 	s := h.Pick(x, "set", dom)
-	p, t := s.r, s.t
+	p, t := s.r, s.a
 	n := p.N
 	full128 := p.N == 16 && !p.Small()
 	kinds := []int{3, 0, 1, 2}
@@ -311,20 +314,23 @@ func schemeSection(x *h.X) {
 	defer tape.Unbind()
 
 	if phase == "keygen+deterministic" {
-		// (1) slh_keygen_internal on the chosen seeds
-		var tskb, tpkb []byte
-		if !try(x, "slhKeygenInternal", func() {
-			sk, pk := t.VKeygenInternal(bytes.Clone(skSeed), bytes.Clone(skPrf), bytes.Clone(pkSeed))
-			tskb, tpkb = sk.Encode(), pk.Encode()
-			if e2 := sk.PublicKey().Encode(); !bytes.Equal(e2, tpkb) {
-				x.Fail("key-bytes", "%s: SecretKey.PublicKey() = %x, PublicKey = %x", p.Name, e2, tpkb)
+		// (1) slh_keygen_internal on the chosen seeds (unexported: only through the export shim; without it, key
+		// generation is still judged by (2), and the model's key pair for these seeds through the key objects in (5))
+		if h.Seams() {
+			var tskb, tpkb []byte
+			if !try(x, "slhKeygenInternal", func() {
+				sk, pk := s.t.VKeygenInternal(bytes.Clone(skSeed), bytes.Clone(skPrf), bytes.Clone(pkSeed))
+				tskb, tpkb = sk.Encode(), pk.Encode()
+				if e2 := sk.PublicKey().Encode(); !bytes.Equal(e2, tpkb) {
+					x.Fail("key-bytes", "%s: SecretKey.PublicKey() = %x, PublicKey = %x", p.Name, e2, tpkb)
+				}
+			}) {
+				return
 			}
-		}) {
-			return
-		}
-		if !same(x, "key-bytes", fmt.Sprintf("%s private key from seeds %s", p.Name, seedKinds[kind]), tskb, rsk) ||
-			!same(x, "key-bytes", fmt.Sprintf("%s public key from seeds %s", p.Name, seedKinds[kind]), tpkb, rpk) {
-			return
+			if !same(x, "key-bytes", fmt.Sprintf("%s private key from seeds %s", p.Name, seedKinds[kind]), tskb, rsk) ||
+				!same(x, "key-bytes", fmt.Sprintf("%s public key from seeds %s", p.Name, seedKinds[kind]), tpkb, rpk) {
+				return
+			}
 		}
 		// (2) KeyGen() with the seeds served by the entropy tape (three draws of n bytes)
 		tp.Rewind()
